@@ -51,6 +51,9 @@ def make_cases(rng, tier):
         etas = rng.sample(A, ne)
         oms = rng.sample(A, no)
         for eta in etas:
+            # omega exactly 0 and pi: cos(omega) = +-1, where an unclipped arccos yields NaN
+            for om in ((1, 0, 1), (-1, 0, 1)):
+                cases.append(mk("plain", th, eta, om, (1, 0, 1), (1, 0, 1)))
             for om in oms:
                 cases.append(mk("plain", th, eta, om, (1, 0, 1), (1, 0, 1)))
                 tilts = [(1, 0, 1)] + rng.sample(TILT[1:], 3 if tier == "quick" else 8)
@@ -148,6 +151,9 @@ def worker(x):
                 tag2 = tag + " eta=%.5f omega=%.5f" % (eta0, om0)
                 # at an exactly tangent construction the two roots coincide and acos/sqrt lose half the digits
                 tol = 1e-6 if x["tangent"] else 1e-9
+                if solver == "plain":
+                    # find_omega takes arccos(cos omega): at omega = 0 or pi the result carries sqrt(2 eps) = 2e-8 of rounding
+                    tol = max(tol, 1e-7)
                 for k, o in enumerate(oms):
                     if not (-math.pi - 1e-12 < o <= math.pi + 1e-12):
                         out.append("omega %r outside (-pi, pi] (%s)" % (o, tag2))
